@@ -308,6 +308,9 @@ impl C19 {
                     // the transformed ends coincide (rand rejects them) or are a few ulps
                     // apart (rand 0.8's UniformFloat::new then loops ~2^51/ulps times).
                     // Demand a mass of at least 2^-16 of the bicone between the ends.
+                    // one range in ten reaches above the nominal maximum (lightness 1.2 .. 1.5 is a legitimate request for
+                    // unclamped colors: the sampler's contract is about the two ends, not about the space)
+                    let dmax = if !wide && rng.chance(1, 10) { dmax * 1.5 } else { dmax };
                     let mut pair = draw_pair(rng, c, dmin, dmax, inclusive, wide, true);
                     for _ in 0..8 {
                         let mass = bicone_cdf(pair.1 / scale) - bicone_cdf(pair.0 / scale);
@@ -755,7 +758,9 @@ impl<'d> Judge<'d> {
                     // eps); its inverse CDF has slope 1/(12 (1-h)^2) in the upper half,
                     // so that is the resolution the height can have there.
                     let slope = |h: f64| -> f64 {
-                        let hn = (h / scale).clamp(0.0, 1.0);
+                        // (not clamped at the top: a requested range may lie above the nominal maximum, and the map from
+                        // r1 to the height has the same conditioning on both sides of the apex)
+                        let hn = (h / scale).max(0.0);
                         if hn > 0.5 {
                             (1.0 / (12.0 * (1.0 - hn).powi(2))).clamp(1.0, 1e12)
                         } else {
